@@ -3,59 +3,44 @@
 rewrite benign/MATRIX.md.  Each of them was written by a blind sub-agent (property text + scratch worktree only) and was
 checked by its author against the tests and a bit-identical output digest; every check must stay silent (exit 0) on
 every one of them.  Scratch copies live under the system temp directory and are removed at once; /repo is never patched."""
-import concurrent.futures as cf
-import json
 import os
-import shutil
-import subprocess
 import sys
-import tempfile
+
+sys.path.insert(0, os.path.dirname(os.path.abspath(__file__)))
+from sa.matrix import run_matrix  # noqa: E402
 
 VERIF = os.path.dirname(os.path.abspath(__file__))
-CHECKS = [c["property_id"] for c in json.load(open(os.path.join(VERIF, "MANIFEST.json")))["checks"]]
-
-
-def runcheck(args):
-    tmp, c = args
-    r = subprocess.run([os.path.join(VERIF, "check"), c, "--repo", tmp], capture_output=True, text=True)
-    viol = [l.strip()[:260] for l in (r.stdout + r.stderr).splitlines() if (l.startswith("  ") and "]" in l and "[" in l and not l.startswith("  rule ")) or "ANALYSIS-ERROR" in l]
-    return c, r.returncode, viol
 
 
 def main():
     root = os.path.join(VERIF, "benign")
     ids = sys.argv[1:] or sorted(d for d in os.listdir(root) if os.path.exists(os.path.join(root, d, "patch.diff")))
-    rows, alarms = [], 0
-    for bid in ids:
-        tmp = tempfile.mkdtemp(prefix=f"verif-benign-{bid}-")
-        try:
-            shutil.copytree("/repo/trimesh", tmp + "/trimesh", ignore=shutil.ignore_patterns("__pycache__", "*.pyc"))
-            r = subprocess.run(["patch", "-p1", "-s", "-f", "-d", tmp, "-i", os.path.join(root, bid, "patch.diff")], capture_output=True, text=True)
-            if r.returncode != 0:
-                print(bid, "patch does not apply (the tree moved on)")
-                rows.append((bid, "patch does not apply", ""))
-                continue
-            with cf.ThreadPoolExecutor(16) as ex:
-                out = list(ex.map(runcheck, [(tmp, c) for c in CHECKS]))
-        finally:
-            shutil.rmtree(tmp, ignore_errors=True)
-        hits = {c: (rc, viol) for c, rc, viol in out if rc != 0}
-        alarms += bool(hits)
-        print(bid, "ALARMS " + str({c: rc for c, (rc, _) in hits.items()}) if hits else "silent")
-        for c, (rc, viol) in hits.items():
-            for l in viol[:2]:
-                print("     ", c, l[:230])
+    rows = {}
+
+    def done(bid, res):
         first = ""
         try:
             first = open(os.path.join(root, bid, "notes.md")).read().strip().splitlines()[0].lstrip("# ").strip()[:110]
-        except OSError:
+        except (OSError, IndexError):
             pass
-        rows.append((bid, "silent" if not hits else "ALARM: " + ", ".join(f"{c} (exit {rc})" for c, (rc, _) in hits.items()), first))
+        if res is None:
+            print(bid, "patch does not apply (the tree moved on)", flush=True)
+            rows[bid] = (bid, "patch does not apply", first)
+            return
+        hits = {c: (rc, v) for c, (rc, v) in res.items() if rc != 0}
+        print(bid, ("ALARMS " + str({c: rc for c, (rc, _) in hits.items()})) if hits else "silent", flush=True)
+        for c, (rc, v) in hits.items():
+            for l in v[:2]:
+                print("     ", c, l[:230])
+        rows[bid] = (bid, "silent" if not hits else "ALARM: " + ", ".join(f"{c} (exit {rc})" for c, (rc, _) in hits.items()), first)
+
+    run_matrix({b: os.path.join(root, b, "patch.diff") for b in ids}, progress=done)
     if not sys.argv[1:]:
         with open(os.path.join(root, "MATRIX.md"), "w") as f:
             f.write("| refactor | all checks | what it does |\n|---|---|---|\n")
-            for r in rows:
-                f.write("| " + " | ".join(r) + " |\n")
+            for b in sorted(rows):
+                f.write("| " + " | ".join(rows[b]) + " |\n")
+    alarms = sum(1 for r in rows.values() if r[1] != "silent")
     print(f"{len(rows)} behaviour-preserving refactors: {alarms} raise an alarm in some check")
     return 1 if alarms else 0
 
